@@ -148,3 +148,36 @@ def attach(tag):
 	bd.path = os.path.join(common.VERIF, "build", "%s.%d" % (tag, pid))
 	os.makedirs(bd.path, exist_ok = True)
 	return bd
+
+
+def run_cases(binary, cases, timeout = 600, args = ()):
+	""" Feed a list of case scripts (bytes, each starting with a line
+	    b"N <index>\n" that makes the driver print "CASE <index>") to a driver.
+	    Returns (outputs, crashes): outputs[i] = list of stdout lines of case i
+	    (None if it never ran), crashes = list of (index, returncode, stderr tail,
+	    sanitizer summary).  After a crash the remaining cases are re-submitted
+	    to a fresh process, so one defect does not mask the rest. """
+	outputs = [None] * len(cases)
+	crashes = []
+	start = 0
+	guard = 0
+	while start < len(cases):
+		guard += 1
+		if guard > 200:
+			break
+		blob = b"".join(cases[start:])
+		rc, out, err = run(binary, blob, args = args, timeout = timeout)
+		cur = None
+		for line in out.decode(errors = "replace").split("\n"):
+			if line.startswith("CASE "):
+				cur = int(line[5:])
+				outputs[cur] = []
+			elif cur is not None and line != "":
+				outputs[cur].append(line)
+		if rc == 0:
+			break
+		# the driver died: the last case that printed its marker is the culprit
+		bad = cur if cur is not None else start
+		crashes.append((bad, rc, err.decode(errors = "replace")[-3000:], sanitizer_summary(err)))
+		start = bad + 1
+	return outputs, crashes
